@@ -47,7 +47,7 @@ PRECONDITIONS = [
     'ids given explicitly are >= 1 (<= 0 means "allocate"); duplicate ids only together with preserve_ids',
     'make_prism boxes have non-zero size on every axis (ValueError otherwise, documented)',
     'displacement: multiblend data only on displacements where at least one multi_blend is non-zero (the writer keys the block on that)',
-    'Strata2DViewport u/v stay 1e-3 away from 0 and +-65536 (in-band axis marker); exactly four viewports (v0..v3)',
+    'Strata2DViewport u/v stay 1e-3 away from +-65536 (in-band axis marker of the file format); exactly four viewports (v0..v3)',
     'format_version is 100 (VMF.parse rejects anything else); quickhide_count >= 0; numbers finite, |x| <= 1e9',
 ]
 
@@ -588,13 +588,15 @@ def cordon_descs(cfg: GenConfig = DEFAULT):
 
 
 def _uv_ok(x: float) -> bool:
-    return abs(x) >= 1e-3 and abs(abs(x) - 65536.0) >= 1e-3
+    # +-65536 marks the planar axis in the file (in-band), so a view exactly there is not expressible; 0 is an ordinary
+    # coordinate (a view centred on an axis - what the parser itself creates for a view without a position).
+    return abs(abs(x) - 65536.0) >= 1e-3
 
 
 @_cache
 def viewport_descs(cfg: GenConfig = DEFAULT):
     ang = st.one_of(st.integers(-360, 720).map(float), st.floats(-720, 720, allow_nan=False).map(lambda v: round(v, 4)))
-    uv = coords(cfg).filter(_uv_ok)
+    uv = st.one_of(coords(cfg).filter(_uv_ok), coords(cfg).filter(_uv_ok), st.sampled_from([0.0, 0.0, 1e-7, 128.0]))
     return st.one_of(
         st.fixed_dictionaries({'kind': st.just('3d'), 'pos': vec3(cfg), 'angle': st.lists(ang, min_size=3, max_size=3)}),
         st.fixed_dictionaries({'kind': st.just('2d'), 'axis': st.sampled_from('xyz'), 'u': uv, 'v': uv,
